@@ -14,7 +14,7 @@ HD = "verif.harness.descriptor."
 
 # for ALL 2^40 x 32 inputs the real step function is the GF(32) LFSR step of Core's code (g(x) of degree 8): the checksum is therefore a
 # linear code and a substitution (1-2 changed symbols within 4 consecutive positions, degree < 8) can never be a multiple of g(x)
-contract("buidl.descriptor.calc_poly_mod", props=("C16",), params={"c": ("int", 0, 2**40 - 1), "val": ("int", 0, 31)}, bv=48,
+contract("buidl.descriptor.calc_poly_mod", props=("C16",), params={"c": ("int", 0, 2**40 - 1), "val": ("int", 0, 31)}, bv=48, timeout_ms=30000,
          ensures=["returns()", "result == spec.text.bch_step(c, val, spec.text.DESC_GEN)", "0 <= result < 2**40"],
          gen=lambda rng, tier: ({"c": rng.getrandbits(40), "val": rng.randrange(32)} for _ in range(10**6)))
 
